@@ -5,7 +5,12 @@ use std::collections::{BTreeMap, BTreeSet};
 fn statement_dependencies(statement: &Statement) -> BTreeSet<usize> {
     use Statement as S;
     match &statement {
-        S::Assignment { value, .. } => dependencies(value),
+        // Both sides count: a function that assigns to a global (or to a field of one) must be
+        // emitted after that global, or the assignment goes to an undeclared Lua global.
+        S::Assignment { target, value, .. } => dependencies(target)
+            .union(&dependencies(value))
+            .cloned()
+            .collect(),
 
         S::Block { statements, .. } => statements
             .iter()
